@@ -431,6 +431,17 @@ template <class G> class Obj : public IObj {
                 for (int l = 0; l < 3; ++l)
                     hasl[l][i][j] = baseView(g).hasEdge(i, j, Lab<G>::enc(l, variant)) ? 1 : 0;
             }
+        // C03 on the object's own terms: an entry in the label map exactly for the pairs that
+        // hasEdge reports (orphans only arise from setEdgeLabel(force=true), which the scenarios
+        // that compare this topic do not use)
+        if (!nolabel)
+            for (VertexIndex i = 0; i < n; ++i)
+                for (VertexIndex j = 0; j < n; ++j)
+                    if ((lab[i][j].get<int>() != NONE_L) != (has[i][j].get<int>() == 1)) {
+                        bad += "[label] getEdgeLabel(" + std::to_string(i) + "," + std::to_string(j) + ") " +
+                               (has[i][j].get<int>() ? "throws although the pair is an edge" : "returns a label although the pair is not an edge") + "; ";
+                        i = j = (VertexIndex)n; // one message is enough
+                    }
         o["has"] = has;
         o["lab"] = lab;
         o["labd"] = labd;
